@@ -789,7 +789,7 @@ Definition conv (l : lang) (v : sitem) : oitem :=
       | Py => OInt (if size =? 8 then Z.of_N raw else signed (8 * size) raw)   (* val.c / val.s / val.i; 8 bytes: unsigned *)
       | Lua => OInt (signed (8 * size) raw)                                      (* lua_pushinteger, then a double *)
       end
-  | VFlt size raw => OFlt size raw
+  | VFlt size raw => if size =? 10 then OFlt 10 0 else OFlt size raw     (* (double)long double: not compared bit by bit *)
   | VStr b => match l with Py => if utf8_valid b then OStr b else OInvalid | Lua => OStr b end
   | VNone => ONone
   end.
@@ -873,7 +873,10 @@ Definition ok_sitem (l : lang) (s : spec) (a : aval) (o : oitem) : bool :=
   | AStr str => str_ok (trunc_str str)
   | ANull => str_ok null_str
   | ABad p => str_ok (bad_ptr_text p)
-  | AFlt bits' => match o with OFlt sz b => (sz =? s_size s) && (b =? bits' mod 2 ^ bits) | _ => false end
+  | AFlt bits' => match o with
+                  | OFlt sz b => (sz =? s_size s) && ((sz =? 10) || (b =? bits' mod 2 ^ bits))
+                  | _ => false
+                  end
   | AStruct => str_ok (struct_text (s_name s))
   | AScr ints strs flts =>
       match o with
